@@ -18,18 +18,23 @@ def random_song(rng, ntracks=None, maxev=10, loops="none", tempo_changes=True, f
             ev.append([0, {"k": "tempo", "us": div * rng.choice(qs)}])
         ev.append([0, {"k": "pc", "ch": k, "p": k}])
         sounding = []
+        # a track may own a second MIDI channel (k + 10): same keys on both channels at one tick exercise the row sorting
+        two = k < 6 and rng.random() < 0.4
+        if two:
+            ev.append([0, {"k": "pc", "ch": k + 10, "p": k}])
         n = rng.randrange(2, maxev + 1)
         for i in range(n):
             dt = rng.choice([0, 0, 0, 1, 10, 48, 96, 96, 200, 300])
             r = rng.random()
             if r < 0.35:
-                note = rng.choice([48, 50, 52, 53, 55, 57, 59, 60])
+                note = rng.choice([48, 50, 52, 53, 55, 57, 59, 60]) if not two else rng.choice([48, 50, 52])
+                chn = k + 10 if two and rng.random() < 0.5 else k
                 v = vid[0]; vid[0] = vid[0] % 126 + 1
-                ev.append([dt, {"k": "on", "ch": k, "n": note, "v": v}]); sounding.append(note)
+                ev.append([dt, {"k": "on", "ch": chn, "n": note, "v": v}]); sounding.append((chn, note))
             elif r < 0.60 and sounding:
-                note = sounding.pop(rng.randrange(len(sounding)))
-                if rng.random() < 0.3: ev.append([dt, {"k": "on", "ch": k, "n": note, "v": 0}])
-                else: ev.append([dt, {"k": "off", "ch": k, "n": note, "v": rng.choice([0, 64])}])
+                (chn, note) = sounding.pop(rng.randrange(len(sounding)))
+                if rng.random() < 0.3: ev.append([dt, {"k": "on", "ch": chn, "n": note, "v": 0}])
+                else: ev.append([dt, {"k": "off", "ch": chn, "n": note, "v": rng.choice([0, 64])}])
             elif r < 0.72: ev.append([dt, {"k": "cc", "ch": k, "n": rng.choice([7, 10, 11, 64, 1, 91]), "v": rng.randrange(128)}])
             elif r < 0.77: ev.append([dt, {"k": "pc", "ch": k, "p": rng.randrange(16)}])
             elif r < 0.82: ev.append([dt, {"k": "bend", "ch": k, "v": rng.randrange(16384)}])
@@ -40,8 +45,8 @@ def random_song(rng, ntracks=None, maxev=10, loops="none", tempo_changes=True, f
             elif r < 0.97: ev.append([dt, {"k": "sysex", "b": [0x7D, k, i % 128, 0xF7]}])
             elif k == 0 and tempo_changes: ev.append([dt, {"k": "tempo", "us": div * rng.choice(qs)}])
             else: ev.append([dt, {"k": "cc", "ch": k, "n": 11, "v": rng.randrange(128)}])
-        for note in sounding:
-            ev.append([rng.choice([0, 10, 96]), {"k": "off", "ch": k, "n": note, "v": 0}])
+        for (chn, note) in sounding:
+            ev.append([rng.choice([0, 10, 96]), {"k": "off", "ch": chn, "n": note, "v": 0}])
         tracks.append({"ev": ev, "eot": rng.choice([0, 0, 0, 96, 400])})
     song = {"e": "Song", "div": div, "fmt": fmt if ntracks > 1 or fmt == 0 else rng.choice([0, 1]), "rs": rng.choice([0, 1]), "tracks": tracks}
     if loops != "none":
@@ -53,8 +58,12 @@ def place_loops(rng, song, mode):
     if mode == "random":
         mode = rng.choice(["valid", "valid", "valid", "startonly", "endonly", "invalid"])
     tr = song["tracks"][rng.randrange(len(song["tracks"]))]["ev"]
+    use_cc = rng.random() < 0.25
     def ins(pos, kind, dt):
-        tr.insert(pos, [dt, {"k": kind}])
+        if kind == "loopstart" and use_cc:
+            tr.insert(pos, [dt, {"k": "cc111", "ch": 0, "v": 0}])     # CC111 = loop start (RPG Maker convention)
+        else:
+            tr.insert(pos, [dt, {"k": kind}])
     n = len(tr)
     if mode == "valid":
         a = rng.randrange(1, max(2, n - 1)); b = rng.randrange(a + 1, n + 1)
